@@ -647,6 +647,16 @@ CORPUS = [
                dict(name="beta", dist="norm", args=[0.5, 0.2], log=False)],
          calls=[dict(kind="get", N=10, tol=[0.5, 0.35], G=2), dict(kind="continue", N=10, tol=[0.3, 0.26], G=2),
                 dict(kind="continue", N=10, tol=0.25, G=1)]),
+    # an inferred initial state listed before the rates (par_order is not the identity) with mixed log10 flags: the
+    # back-transform must hit the entries the flags were given for
+    dict(model="SIR", tmax=40.0, nobs=8, obs=["I", "R"], loss="SquareLoss", constraint=None, seed=2718, kind="corpus",
+         pars=[dict(name="I", dist="unif", args=[0.0, 0.05], log=False), dict(name="beta", dist="unif", args=[-0.6, 0.1], log=True),
+               dict(name="gamma", dist="unif", args=[0.1, 0.6], log=False)],
+         calls=[dict(kind="get", N=12, tol="inf", G=1)]),
+    dict(model="SIR", tmax=40.0, nobs=8, obs=["I", "R"], loss="SquareLoss", constraint=[1.0, "S"], seed=31415, kind="corpus",
+         pars=[dict(name="gamma", dist="unif", args=[-1.0, -0.2], log=True), dict(name="I", dist="unif", args=[0.0, 0.05], log=False),
+               dict(name="beta", dist="unif", args=[0.2, 1.2], log=False)],
+         calls=[dict(kind="get", N=12, tol="inf", G=2, q=0.5)]),
     # a prior that reaches the region where the trajectory overflows and the cost is NaN: such trials must be rejected
     dict(model="SIR", tmax=40.0, nobs=8, obs=["I", "R"], loss="SquareLoss", constraint=None, seed=4242, kind="corpus",
          pars=[dict(name="beta", dist="unif", args=[0.2, 0.8], log=False), dict(name="gamma", dist="norm", args=[0.3, 5.0], log=False)],
